@@ -68,6 +68,8 @@ DOC_NASTY = ["", " ", "abc", "2020-13-01", "24:61", "1e999999", "9" * 5000, 1e30
              "2023-02-30+01:00", "2023-13-01Z", "9999-12-31T24:00:00", "9999-12-31T23:59:59.9999995"]
 
 
+NAME_NASTY = ["m\x000", "m0\x1f", "\ufffe", "m0\ud800", "", " ", "m0 ", "<m0>", "m0&", "{urn:x}m0", "m" * 5000,
+              "\u202em0", "m0\n", "%s", "%(x)s", "{0}", "\\"]
 XSI_TYPE_NASTY = ["t:x:Item", "::", ":", "a:", ":b", "xs:string:x", "", " ", "{urn:x}y", "x" * 5000,
                   "xs:", "nope:string", "xsi:type", "a b", "\u00e9:\u00e9"]
 
@@ -80,7 +82,10 @@ def cases(tier):
         return lambda t: {"fam": fam, "base": t[0], "muts": [list(x) for x in t[1]],
                           "part": t[2], "wsgi": t[3],
                           # struct cases only: date/time types take a custom strptime format
-                          "fmt": t[2] == "struct" and t[1][0][0] % 5 == 0}
+                          "fmt": t[2] == "struct" and t[1][0][0] % 5 == 0,
+                          # dict / http input with an XML-family OUTPUT protocol (mixed protocols)
+                          "xout": fam in ("dict", "http") and t[1][0][1] % 3 == 0 and
+                          ("xml", "soap11")[t[1][0][1] % 2]}
     parts = st.sampled_from(["prefix", "bytes", "struct", "struct", "struct"])
     return st.one_of(
         st.tuples(c01.cases(tier), mut, parts, st.booleans()).map(tag("xml")),
@@ -136,6 +141,8 @@ class Target(object):
             self.R = build.Recorder()
             svc = build.make_service(self.B, "Svc", [m], self.R)
             inp, outp = c02._protocols(base)
+            if case.get("xout"):
+                outp = c09._protocols(case["xout"])[1]
             self.app = build.make_app([svc], base["U"]["tns"], inp, outp)
             rets = [self.B.to_native(t, j) for t, j in zip(m["ret"], base["rets"])]
             self.R.script[m["name"]] = (lambda ctx, a: None) if not rets else \
@@ -155,7 +162,8 @@ class Target(object):
             svc = build.make_service(self.B, "Svc", [m], self.R)
             self.app = build.make_app([svc], U["tns"], HttpRpc(validator=base["validator"],
                                                               hier_delim=base["delim"],
-                                                              strict_arrays=base["strict"]), HttpRpc())
+                                                              strict_arrays=base["strict"]),
+                                      c09._protocols(case["xout"])[1] if case.get("xout") else HttpRpc())
             rets = [self.B.to_native(t, j) for t, j in zip(m["ret"], base["rets"])]
             self.R.script[m["name"]] = (lambda ctx, a: rets[0]) if rets else (lambda ctx, a: None)
             self.prot = "http"
@@ -164,14 +172,17 @@ class Target(object):
             self.ct = None
         self.m = base["m"]
         self.wsgi = WsgiApplication(self.app) if (case.get("wsgi") or fam == "http") else None
-        self.soap = self.prot in ("soap11", "soap12")
+        self.soap = (case.get("xout") or self.prot) in ("soap11", "soap12")
 
     def send(self, data, ct_variant=0):
         """-> (escaped exc|None, fault code|None, calls, status|None, reply bytes)"""
         self.R.reset()
         if self.fam == "http":
+            path = "/m0"
+            if isinstance(data, tuple):
+                path, data = data
             qs = data.decode("latin1") if isinstance(data, bytes) else data
-            res = drive.wsgi_call(self.wsgi, drive.environ("GET", "/m0", qs, content_type=None,
+            res = drive.wsgi_call(self.wsgi, drive.environ("GET", path, qs, content_type=None,
                                                            content_length=None))
             return self._wsgi_result(res)
         if self.wsgi is not None:
@@ -208,7 +219,7 @@ class Target(object):
         code = None
         if not status.startswith("2"):
             try:
-                oprot = "http" if self.fam == "http" else self.prot
+                oprot = self.case.get("xout") or ("http" if self.fam == "http" else self.prot)
                 code = c09.decode_fault(oprot, body)[0]
             except Exception:
                 code = "undecodable"
@@ -364,6 +375,11 @@ def dict_struct_mutants(T, muts):
             elif k == 6:
                 c04._set(d2, p, [copy.deepcopy(c04._get(d2, p))] * (1 + b % 3))
                 kind = "wrap-in-list"
+            elif k == 7 and b % 2 and isinstance(d2, dict) and len(d2) == 1:
+                # the method name itself: control characters, noncharacters, lone surrogates
+                (k0, v0), = d2.items()
+                d2 = {NAME_NASTY[(b // 2) % len(NAME_NASTY)]: v0}
+                kind = "method-name-nasty"
             else:
                 if isinstance(d2, dict):
                     d2["second_method"] = {}
@@ -420,6 +436,12 @@ def http_struct_mutants(T, muts):
             ps[i] = (k + "[%s]" % idx, v); kind = "index-on-scalar"
         elif kk == 2:
             ps[i] = (k.replace("[", ("[9", "[-", "[" + "7" * 4400, "[0")[b % 4]), v); kind = "index-mangled"
+        elif kk == 3 and b % 2:
+            # every index shifted up: the lowest index is no longer 0 (strict and lenient modes)
+            import re as _re
+            sh = 1 + b % 7
+            ps = [(_re.sub(r"\[(\d+)\]", lambda mo: "[%d]" % (int(mo.group(1)) + sh), kx), vx) for kx, vx in ps]
+            kind = "index-shift"
         elif kk == 3:
             ps[i] = (k + d + "x", v); kind = "deeper-path"
         elif kk == 4:
@@ -435,6 +457,9 @@ def http_struct_mutants(T, muts):
         out.append((kind, ref_flat.query_string(ps).encode("ascii")))
     out += [("raw-percent", b"a=%zz&b=%"), ("no-equals", b"abc"), ("only-amp", b"&&&;;"), ("bad-utf8", b"a=%ff%fe"),
             ("plus", b"a=+&b=1+2"), ("long-key", b"a" * 5000 + b"=1")]
+    # the method name comes from the URL path
+    for nm in ("/m\x000", "/m0\x1f", "/m0\xff\xfe", "/", "", "/m0/", "//m0", "/M0", "/m0%00", "/" + "m" * 5000):
+        out.append(("path-nasty", (nm, T.valid)))
     return out
 
 
